@@ -76,11 +76,18 @@ mod bystander {
 
     pub struct Model<'a> {
         cfg: &'a Cfg,
+        /// the family the model works for: it names the violation signatures (`C09:<fam>:..`) and the counters (`<fam>_..`)
+        fam: &'static str,
         name: &'static str,
         pub slots: Vec<Slot>,
         /// ids a cancel was sent for after their stream had been released
         stale_cancel_ids: Vec<u64>,
+        /// what else was going on (appended to the report of a live stream that was answered with an error)
+        pub context: String,
         log: Vec<String>,
+        /// the most recent exchanges once `log` is full (scenarios with very many streams)
+        log_tail: std::collections::VecDeque<String>,
+        log_dropped: u64,
         ids_reused: u64,
         stale_next: u64,
         stale_cancel: u64,
@@ -89,28 +96,85 @@ mod bystander {
 
     impl<'a> Model<'a> {
         pub fn new(cfg: &'a Cfg, name: &'static str, slots: Vec<(usize, Spec)>) -> Model<'a> {
+            Model::new_in("bystander", cfg, name, slots)
+        }
+
+        /// The same interpreter for another family of scenarios over several connections to one producer.
+        pub fn new_in(fam: &'static str, cfg: &'a Cfg, name: &'static str, slots: Vec<(usize, Spec)>) -> Model<'a> {
             let slots = slots
                 .into_iter()
                 .map(|(conn, spec)| Slot { conn, expected: logical_bytes(cfg.kind, &spec), spec, sid: 0, st: St::Unopened, wire: vec![], chunks: vec![], adopted: false })
                 .collect();
-            Model { cfg, name, slots, stale_cancel_ids: vec![], log: vec![], ids_reused: 0, stale_next: 0, stale_cancel: 0, pattern: vec![] }
+            Model { cfg, fam, name, slots, stale_cancel_ids: vec![], context: String::new(), log: vec![], log_tail: Default::default(), log_dropped: 0, ids_reused: 0, stale_next: 0, stale_cancel: 0, pattern: vec![] }
         }
 
         fn note(&mut self, s: String) {
             if self.log.len() < 160 {
                 self.log.push(s);
+            } else {
+                if self.log_tail.len() >= 80 {
+                    self.log_tail.pop_front();
+                    self.log_dropped += 1;
+                }
+                self.log_tail.push_back(s);
             }
         }
 
+        fn sig(&self, what: &str) -> String {
+            format!("C09:{}:{what}", self.fam)
+        }
+        fn ctr(&self, what: &str) -> String {
+            format!("{}_{what}", self.fam.replace('-', "_"))
+        }
+        /// (stream id, chunks pulled so far) of a slot
+        pub fn progress(&self, i: usize) -> (u64, usize) {
+            (self.slots[i].sid, self.slots[i].chunks.len())
+        }
+        pub fn disturbed(&self, i: usize) -> bool {
+            self.slots[i].st == St::Disturbed
+        }
+        pub fn ended(&self, i: usize) -> bool {
+            self.slots[i].st == St::Released(Rel::End)
+        }
+        /// the bytes pulled for slot `i` so far are exactly its producer's logical bytes
+        pub fn exact(&self, i: usize) -> bool {
+            let s = &self.slots[i];
+            let (logical, clean) = if self.cfg.zstd { svs::zstd_decompress_lossy(&s.wire) } else { (s.wire.clone(), true) };
+            clean && logical == s.expected
+        }
+
         pub fn replay(&self) -> Value {
-            json!({
+            // scenarios with very many streams: the first ones, every disturbed one, and a census of the rest
+            let many = self.slots.len() > 48;
+            let listed: Vec<usize> = if many {
+                let mut v: Vec<usize> = (0..8).collect();
+                v.extend(self.slots.iter().enumerate().skip(8).filter(|(_, s)| s.st == St::Disturbed).map(|(i, _)| i).take(16));
+                v
+            } else {
+                (0..self.slots.len()).collect()
+            };
+            let mut log = self.log.clone();
+            if !self.log_tail.is_empty() {
+                log.push(format!("... ({} exchanges not kept) ...", self.log_dropped));
+                log.extend(self.log_tail.iter().cloned());
+            }
+            let mut j = json!({
                 "cfg": self.cfg.json(),
                 "scenario": self.name,
-                "streams": self.slots.iter().enumerate().map(|(i, s)| json!({"slot": i, "connection": s.conn, "resource": s.spec.res(), "logical_len": s.expected.len(),
+                "streams": listed.iter().map(|&i| { let s = &self.slots[i]; json!({"slot": i, "connection": s.conn, "resource": s.spec.res(), "logical_len": s.expected.len(),
                     "stream_id": s.sid, "opened_by_library_puller": s.adopted, "state": format!("{:?}", s.st),
-                    "chunks": s.chunks.iter().take(24).map(|(l, e)| format!("{l}{}", if *e { "!" } else { "" })).collect::<Vec<_>>()})).collect::<Vec<_>>(),
-                "exchange_log": self.log,
-            })
+                    "chunks": s.chunks.iter().take(24).map(|(l, e)| format!("{l}{}", if *e { "!" } else { "" })).collect::<Vec<_>>()}) }).collect::<Vec<_>>(),
+                "exchange_log": log,
+            });
+            if many {
+                let mut census: BTreeMap<String, u64> = BTreeMap::new();
+                for s in &self.slots {
+                    *census.entry(format!("{:?}", s.st)).or_insert(0) += 1;
+                }
+                j["streams_in_all"] = json!(self.slots.len());
+                j["streams_by_state"] = json!(census);
+            }
+            j
         }
 
         /// A stream a library puller opened and finished on its own connection; its id was read from the open
@@ -160,12 +224,13 @@ mod bystander {
                             if last {
                                 s.st = St::Released(Rel::End);
                                 if s.spec.fail.is_some() {
-                                    acc.violation("C09:bystander:end-marker-after-producer-failure".to_string(), format!("stream #{i}: the producer failed (fail={:?}) but the stream ended with an end marker", s.spec.fail), self.replay());
+                                    let (sig, fail) = (self.sig("end-marker-after-producer-failure"), self.slots[i].spec.fail);
+                                    acc.violation(sig, format!("stream #{i}: the producer failed (fail={fail:?}) but the stream ended with an end marker"), self.replay());
                                 }
                             } else if s.wire.len() > bound || s.chunks.len() > bound + 16 {
                                 s.st = St::Released(Rel::Cancel);
                                 let _ = conns[conn].cancel(sid, false);
-                                acc.violation("C09:bystander:no-end-marker".to_string(), format!("stream #{i}: {} chunks / {} bytes pulled without an end marker from a {}-byte payload", self.slots[i].chunks.len(), self.slots[i].wire.len(), self.slots[i].expected.len()), self.replay());
+                                acc.violation(self.sig("no-end-marker"), format!("stream #{i}: {} chunks / {} bytes pulled without an end marker from a {}-byte payload", self.slots[i].chunks.len(), self.slots[i].wire.len(), self.slots[i].expected.len()), self.replay());
                             }
                         }
                         NextOut::ErrResp { ec, msg } => {
@@ -175,15 +240,15 @@ mod bystander {
                             } else {
                                 self.slots[i].st = St::Disturbed;
                                 let by_cancel = self.stale_cancel_ids.contains(&sid);
-                                let sig = if by_cancel { "C09:bystander:live-stream-released-by-stale-cancel" } else { "C09:bystander:live-stream-error" };
+                                let sig = self.sig(if by_cancel { "live-stream-released-by-stale-cancel" } else { "live-stream-error" });
                                 acc.violation(
-                                    sig.to_string(),
+                                    sig,
                                     format!(
                                         "connection {conn}'s live stream #{i} (id {sid}, healthy producer, {} of {} chunks pulled so far) was answered ec={ec} '{}'{}",
                                         self.slots[i].chunks.len(),
                                         self.slots[i].expected.len().div_ceil(self.cfg.chunk).max(1),
                                         trunc(&msg, 100),
-                                        if by_cancel { "; another connection had sent a cancel for the same id after ITS stream with that id had been released" } else { "" }
+                                        if by_cancel { "; another connection had sent a cancel for the same id after ITS stream with that id had been released".to_string() } else if self.context.is_empty() { String::new() } else { format!("; {}", self.context) }
                                     ),
                                     self.replay(),
                                 );
@@ -198,13 +263,13 @@ mod bystander {
                     self.stale_next += 1;
                     match out {
                         NextOut::ErrResp { .. } => {
-                            acc.count("bystander_stale_next_rejected", 1);
+                            acc.count(&self.ctr("stale_next_rejected"), 1);
                             acc.count("next_after_release_rejected", 1);
                         }
                         NextOut::Chunk { bytes, last, .. } => {
                             let whose = self.attribute(sid, &bytes);
                             acc.violation(
-                                format!("C09:bystander:stale-next-answered-with-data:{}", rel.tag()),
+                                self.sig(&format!("stale-next-answered-with-data:{}", rel.tag())),
                                 format!(
                                     "connection {conn} sent next for stream #{i} (id {sid}) {} and was answered with a chunk of {} bytes (last={last}) instead of an error{whose}",
                                     match rel {
@@ -239,10 +304,10 @@ mod bystander {
                         }
                         Ok(o) => {
                             self.note(format!("c{conn} open #{i} -> id {}", o.stream_id));
-                            acc.count("bystander_streams_opened", 1);
+                            acc.count(&self.ctr("streams_opened"), 1);
                             if let Some(j) = self.slots.iter().position(|s| s.st == St::Live && s.sid == o.stream_id) {
                                 acc.violation(
-                                    "C09:bystander:live-streams-share-id".to_string(),
+                                    self.sig("live-streams-share-id"),
                                     format!("connection {conn}'s open returned stream id {} while stream #{j} of connection {} is live under the same id", o.stream_id, self.slots[j].conn),
                                     self.replay(),
                                 );
@@ -250,7 +315,7 @@ mod bystander {
                             if self.slots.iter().any(|s| matches!(s.st, St::Released(_) | St::Disturbed) && s.sid == o.stream_id) {
                                 // not a violation in itself: ids are opaque. Recorded because it is the situation the stale traffic probes.
                                 self.ids_reused += 1;
-                                acc.count("bystander_stream_ids_reused_after_release", 1);
+                                acc.count(&self.ctr("stream_ids_reused_after_release"), 1);
                             }
                             let s = &mut self.slots[i];
                             s.sid = o.stream_id;
@@ -275,7 +340,7 @@ mod bystander {
                                 acc.violation(format!("C09:cancel-refused:{}", self.cfg.kind.class()), format!("request-form cancel answered ec={ec}"), self.replay());
                             }
                             self.slots[i].st = St::Released(Rel::Cancel);
-                            acc.count("bystander_streams_cancelled_while_live", 1);
+                            acc.count(&self.ctr("streams_cancelled_while_live"), 1);
                         }
                         St::Released(rel) => {
                             self.pattern.push(5 + notify as u8);
@@ -283,11 +348,11 @@ mod bystander {
                             self.note(format!("c{conn} STALE cancel #{i} (id {sid}, {}, {}) -> ec {ec}", rel.tag(), if notify { "notify" } else { "request" }));
                             self.stale_cancel_ids.push(sid);
                             self.stale_cancel += 1;
-                            acc.count("bystander_stale_cancels_sent", 1);
+                            acc.count(&self.ctr("stale_cancels_sent"), 1);
                         }
                     }
                     if notify {
-                        acc.count("bystander_notify_cancel_barriers", 1);
+                        acc.count(&self.ctr("notify_cancel_barriers"), 1);
                         self.next(conns, i, acc)?;
                     }
                     Ok(())
@@ -322,10 +387,10 @@ mod bystander {
                 }
             }
             acc.evals += 1;
-            acc.count("bystander_scenarios", 1);
-            acc.count("bystander_stale_next_sent", self.stale_next);
+            acc.count(&self.ctr("scenarios"), 1);
+            acc.count(&self.ctr("stale_next_sent"), self.stale_next);
             if self.ids_reused > 0 {
-                acc.count("bystander_scenarios_with_id_reuse", 1);
+                acc.count(&self.ctr("scenarios_with_id_reuse"), 1);
             }
             let mut shape = vec![];
             for i in 0..self.slots.len() {
@@ -339,13 +404,13 @@ mod bystander {
                     St::Released(Rel::End) if s.spec.fail.is_none() => {
                         acc.evals += 1;
                         if clean && logical == s.expected {
-                            acc.count("bystander_streams_exact", 1);
+                            acc.count(&self.ctr("streams_exact"), 1);
                             acc.count("streams_completed", 1);
                         } else {
                             let at = first_diff(&logical, &s.expected);
                             let lost = !clean || logical.len() < s.expected.len();
                             acc.violation(
-                                if lost { "C09:bystander:stream-lost-bytes".to_string() } else { "C09:bystander:stream-content-differs".to_string() },
+                                self.sig(if lost { "stream-lost-bytes" } else { "stream-content-differs" }),
                                 format!(
                                     "connection {}'s stream #{i} (id {}) ended with an end marker after {} chunks but delivered {} logical bytes (complete frame: {clean}) of the producer's {}; first difference at byte {at}",
                                     s.conn,
@@ -362,7 +427,7 @@ mod bystander {
                         let lim = s.spec.fail.filter(|_| !self.cfg.kind.beve()).unwrap_or(s.expected.len()).min(s.expected.len());
                         if logical.len() > lim || logical[..] != s.expected[..logical.len()] {
                             acc.violation(
-                                "C09:bystander:delivered-prefix-differs".to_string(),
+                                self.sig("delivered-prefix-differs"),
                                 format!("stream #{i}: the {} logical bytes delivered before {:?} are not a prefix of the producer's first {lim} bytes (first difference at {})", logical.len(), s.st, first_diff(&logical, &s.expected)),
                                 self.replay(),
                             );
@@ -373,7 +438,7 @@ mod bystander {
                     _ => {}
                 }
             }
-            acc.distinct.push(hash_of(&("bystander", self.cfg, self.name, &shape, &self.pattern[..self.pattern.len().min(48)], self.ids_reused > 0)));
+            acc.distinct.push(hash_of(&(self.fam, self.cfg, self.name, &shape, &self.pattern[..self.pattern.len().min(48)], self.ids_reused > 0)));
             if acc.samples.len() < 2 && self.stale_next >= 2 && self.stale_cancel >= 1 {
                 acc.samples.push(self.replay());
             }
